@@ -251,6 +251,9 @@ def run(F, R, tier):
     ex = F.body("packages::JsrPackageVersionInfo::export")
     vals = []
     _tail_values(F, ex["body"]["value"], vals)
+    for r_ in walk(ex["body"]["value"]):
+        if r_.get("k") == "Ret" and "e" in r_:
+            _tail_values(F, r_["e"], vals)
     n_s = 0
     for v in vals:
         g = guards_at(F, v)
